@@ -415,3 +415,38 @@ func TestFixedC18FailedCallReply(t *testing.T) {
 		t.Errorf("VERIF-FAIL property=C18 class=call.wrong-error: Echo with a cancelled context returns %v", err)
 	}
 }
+
+// TestFixedC18TrafficSeenClosed: with the inactivity probe configured, transact() told the
+// prober about the reply with a blocking send on a channel that the disconnect handler
+// closes: a connection lost right after a reply made Transact panic in the caller's
+// goroutine ("send on closed channel"; reported first as a data race by TestC18Concurrent in
+// inactivity mode). The connection is cut right after the transact reply, 150 times.
+func TestFixedC18TrafficSeenClosed(t *testing.T) {
+	e := newL2Env(t, c16World(t))
+	for i := 0; i < 150; i++ {
+		px, err := kit.StartProxy(e.srv.Sock)
+		if err != nil {
+			t.Fatal(err)
+		}
+		c, _ := kit.NewClient(e.w, px.Endpoint(), client.WithInactivityCheck(30*time.Second, 2*time.Second, backoff.NewConstantBackOff(2*time.Millisecond)))
+		if err := c.Connect(context.Background()); err != nil {
+			t.Fatal(err)
+		}
+		px.AddFault(kit.Fault{Dir: kit.S2C, K: 0, Mode: "after"})
+		var pval interface{}
+		func() {
+			defer func() { pval = recover() }()
+			ctx, cancel := context.WithTimeout(context.Background(), 5*time.Second)
+			defer cancel()
+			_, _ = c.Transact(ctx, ovsdb.Operation{Op: "select", Table: "T0", Where: []ovsdb.Condition{}})
+		}()
+		if pval != nil {
+			t.Fatalf("VERIF-FAIL property=C18 class=panic.transact: iteration %d: Transact panicked when the connection was lost right after its reply: %v", i, pval)
+		}
+		for j := 0; j < 400 && !c.Connected(); j++ {
+			time.Sleep(5 * time.Millisecond)
+		}
+		c.Close()
+		px.Close()
+	}
+}
